@@ -13,13 +13,22 @@
      satisfies the same, and the "badly shaped span information" expect never fires;
    * `C11_quote_head_span` — for a quote shorthand the head's span is exactly the shorthand characters;
    * `C11_sources`, `C11_sources_slice_io` — identical datums *and span trees* from different sources.
-  PARTIAL: the re-parse clause (the text a span covers reads back as the datum's value) is not proved;
-  it is carried by the span correspondence on all sources and the re-parse oracle.
+   * the re-parse clause (LexprModel/Proofs/Reparse.lean with ReparseCore, ReparseLex, ReparseParse,
+     ReparseTop, ReparseElems; imported here; namespace Lexpr.Parse.Reparse): `C11_trunc` — a run that
+     returned a value having stopped in front of `r` returns the same value on the input cut off there
+     (end of input acts as a delimiter at every one of the ~22 peek sites; larger depth budget and other
+     fuel allowed: `C11_depth_mono`, `C11_trunc_fuel`); `C11_reparse` — for the datum returned and,
+     recursively (`RepV`), for every element reachable through the list and vector iterators (cars,
+     dotted tails, vector entries), the text its span covers, parsed on its own with the same options,
+     yields that element's value; the head of a quote shorthand is instead characterised by `QuoteHead`
+     (the shorthand characters); `ReparsesTo.forall` (the prefixes are determined by the span);
+     `C11_reparse_list_iter`, `C11_reparse_vector_iter` (what the datum iterators yield).
   Proved here: the span synthesis of quote shorthands, and that the reader's position does not depend
   on the input source (which is what makes spans equal across sources once values are).
 -/
 import LexprModel.Parse
 import LexprModel.Proofs.Spans
+import LexprModel.Proofs.Reparse
 namespace Lexpr
 namespace Parse
 
@@ -57,6 +66,16 @@ theorem C11_consume_mode_independent (rd : Rd) (m : Mode) (n : Nat) :
 theorem C11_advance (l c : Nat) (b : UInt8) :
     advance l c b = if b = 10 then (l + 1, 0) else (l, c + 1) := by
   unfold advance; by_cases h : b = 10 <;> simp [h]
+
+/-- **C11_span_text_reparses** (the re-parse clause of the property): the text covered by the span of a
+    datum returned by `next_datum` — and, recursively, of every element reachable through its list and
+    vector iterators, the head of a quote shorthand excepted — read on its own with the same options
+    yields exactly that element's value. -/
+theorem C11_span_text_reparses (cfg : Cfg) (fuel : Nat) (s s' : St) (d : Datum) (input : List UInt8)
+    (h : nextDatum cfg fuel s = .ok (some d) s') (hat : Spans.At input s) (hd : s.depth ≤ 128) :
+    Reparse.ReparsesTo cfg s.rd.mode input d.value d.info.span ∧
+      Reparse.RepV (Reparse.ElemOK cfg s.rd.mode input) d.value d.info :=
+  Reparse.C11_reparse cfg fuel s s' d input h hat hd
 
 example : (Rd.consume { mode := .io, rest := asc "a\nλ" } 3).position = ⟨2, 1⟩ := by decide
 
